@@ -523,3 +523,31 @@ func StatTime(path string) int64 {
 	}
 	return 0
 }
+
+// Exists: a file is at path now (symbolically: created through os.Create and not removed, or added).
+func Exists(path string) bool {
+	if !zz.Symbolic() {
+		_, err := os.Lstat(path)
+		return err == nil
+	}
+	ex := find(path) != nil
+	for _, c := range Created {
+		if c == path {
+			ex = true
+		}
+	}
+	for _, r := range Removed {
+		if r == path {
+			ex = false
+		}
+	}
+	return ex
+}
+
+// NativePath maps a model path to where it is materialised natively (identity symbolically).
+func NativePath(path string) string {
+	if !zz.Symbolic() {
+		return filepath.Join(nativeRoot(), path)
+	}
+	return path
+}
